@@ -129,7 +129,7 @@ class BinningBase:
             "adaptive": self._adaptive,
             "binning_type": type(self).__name__,
             # (Not the same for all objects of a class: selections, right-closed fixed-width bins)
-            "includes_right_edge": self._includes_right_edge,
+            "includes_right_edge": bool(self._includes_right_edge),
         }
         self._update_dict(result)
         return result
